@@ -19,9 +19,23 @@
     of both runs with all their arguments, both final states with every pod's
     accepted resources and the queue usage the allocate / deallocate events
     carried).  The two runs must agree: abandoned what-if steps can neither
-    influence what is emitted nor what the session ends with. *)
-From KaiV Require Export Run.Cycle Model.Session Model.SessionSpec Model.SessionErase.
+    influence what is emitted nor what the session ends with.
+    A fourth part on sessions with DRA objects ([claims_monitor]): the restore and
+    erasure clauses on the CLAIMS dump (every pod's ResourceClaimInfo, the
+    plugin's view of every claim), and the correspondence of the claim model
+    (Model/SessionClaims.v) with that dump after every command. *)
+From KaiV Require Export Run.Cycle Model.Session Model.SessionSpec Model.SessionErase Model.SessionClaims.
 Open Scope Z_scope.
+
+(** DRA resource claims (worlds with claims only; elsewhere both tables are empty): every pod's
+    ResourceClaimInfo (pod claim -> devices of the recorded allocation) and the plugin's view of every
+    claim (the DRA manager's assume cache: devices, ReservedFor as a sorted set of pods) *)
+Record cdump := mkCD { cd_pods : amap rci; cd_claims : amap (alloc * list positive) }.
+(** the initial state of the claim model: per pod its claims, status, NodeName, the nodes holding a copy
+    and its ResourceClaimInfo; the tracker's view; the node of every DRA device (ascending by node and
+    index); the number of devices every claim asks for *)
+Record ipod := mkIP { ip_claims : list positive; ip_stat : status; ip_node : option positive; ip_on : list positive; ip_rci : rci }.
+Record cinit := mkCI { ci_pods : amap ipod; ci_claims : amap (alloc * list positive); ci_devnode : amap positive; ci_counts : amap positive }.
 
 Record ojob := mkOJ { oj_alloc : res; oj_active : Z; oj_idx : list Z; oj_psets : amap psview }.
 Record odump := mkOD { od_nodes : amap obs; od_pods : amap pview; od_jobs : amap ojob; od_queues : amap res }.
@@ -29,25 +43,32 @@ Record odump := mkOD { od_nodes : amap obs; od_pods : amap pview; od_jobs : amap
 Record ostep := mkOS {
   os_cmd : cmd; os_err : bool; os_ret : nat; os_calls : list api_call;
   os_nodes : amap (option obs); os_pods : option (amap pview);
-  os_jobs : option (amap ojob); os_queues : option (amap res) }.
+  os_jobs : option (amap ojob); os_queues : option (amap res); os_claims : option cdump;
+  (* Session.QueueAllocatedResources as returned, when it is one whole GPU below the exact sum of what the pods were
+     charged and the allocate / deallocate events carried (the plugin adds and subtracts in float64:
+     2 + 0.3 - 0.3 = 1.9999999999999998, and the getter keeps whole GPUs only); [os_queues] then holds the getter's
+     value for the exact sum *)
+  os_qraw : option (amap res) }.
 (** a Cache call as the recording cache saw it: kind (0 Bind, 1 Evict, 2 TaskPipelined), pod, node
     (hostname of Bind / NodeName of the nominated pod), GPU groups of the passed pod, and the other
     arguments as integers (Bind: received resource type, ReceivedGPU.Count, ReceivedGPU.Portion x 100,
     accepted GPU memory, accepted cpu / memory / GPUs x 1000 as the proportion plugin quantifies them,
     number of DRA claim allocations, number and fingerprint of the bind-request annotations; Evict:
     fingerprints of action / preemptor / message and the gang size; TaskPipelined: message fingerprint) *)
-Record xcall := mkXC { xc_kind : nat; xc_pod : positive; xc_node : option positive; xc_groups : list positive; xc_args : list Z }.
+Record xcall := mkXC { xc_kind : nat; xc_pod : positive; xc_node : option positive; xc_groups : list positive; xc_args : list Z;
+                       xc_claims : list Z (* Bind: the claim allocations handed to the cluster, (claim, device) pairs *) }.
 (** the end of a run: the full dump, per pod what setAcceptedResources left in it (received type, devices,
     portion x 100, GPU memory, quantified cpu / memory / GPUs x 1000), per queue the net amount the
     allocate / deallocate events of the session carried (what the proportion plugin accumulated) *)
-Record xfinal := mkXF { xf_dump : odump; xf_acc : amap (list Z); xf_charged : amap res }.
+Record xfinal := mkXF { xf_dump : odump; xf_acc : amap (list Z); xf_charged : amap res; xf_claims : cdump }.
 Record erun := mkER {
   er_cmds : list cmd;                 (* the erased program, as the harness computed it *)
   er_calls_p : list (list xcall);     (* per Commit of the program, the calls of the full run *)
   er_calls_e : list (list xcall);     (* the same for the erased run *)
   er_final_p : xfinal; er_final_e : xfinal }.
 Record pcase := mkPC {
-  k_init : sess; k_fails : list nat; k_wf : bool; k_dump0 : odump; k_steps : list ostep; k_erase : option erun }.
+  k_init : sess; k_fails : list nat; k_wf : bool; k_dump0 : odump; k_steps : list ostep; k_erase : option erun;
+  k_cinit : cinit; k_cdump0 : cdump }.
 Inductive case := KProg (k : pcase) | KCycle (k : ccase).
 
 Definition resolve (prev : odump) (st : ostep) : odump :=
@@ -320,27 +341,70 @@ Definition queues_balance (x1 y1 x2 y2 : amap res) : bool :=
   same_keys x1 y1 && same_keys x1 x2 && same_keys x1 y2
   && amap_eqb req (zip_amap res_lin x1 y1) (zip_amap res_lin x2 y2).
 
+(** claims dumps: what a pod records, the whole view, the view of [claims_restored] (used by the claims part below) *)
+Definition alloc_eqb_r (a b : alloc) : bool :=
+  match a, b with
+  | None, None => true
+  | Some x, Some y => list_eqb Pos.eqb x y
+  | _, _ => false
+  end.
+Definition claimv_eqb (a b : alloc * list positive) : bool :=
+  alloc_eqb_r (fst a) (fst b) && list_eqb Pos.eqb (snd a) (snd b).
+Definition rci_eqb (a b : rci) : bool := amap_eqb alloc_eqb_r a b.
+Definition cdump_eqb (a b : cdump) : bool :=
+  amap_eqb rci_eqb (cd_pods a) (cd_pods b) && amap_eqb claimv_eqb (cd_claims a) (cd_claims b).
+
+(** pod [p] is in the ReservedFor of claim [c] *)
+Definition holds_d (d : cdump) (p c : positive) : bool :=
+  match alookup c (cd_claims d) with Some (_, rf) => existsb (Pos.eqb p) rf | None => false end.
+(** the recorded allocations of the pods that hold the claim are equal; what a pod that does not hold a claim
+    (pending, or evicted in the simulation) records for it is compared separately ([cdump_eqb]) *)
+Definition rci_same_held (d : cdump) (p : positive) (a b : rci) : bool :=
+  list_eqb Pos.eqb (map fst a) (map fst b)
+  && forallb (fun ca => negb (holds_d d p (fst ca))
+                        || match alookup (fst ca) b with Some y => alloc_eqb_r (snd ca) y | None => false end) a.
+Fixpoint pods_rci_same (d : cdump) (a b : amap rci) : bool :=
+  match a, b with
+  | [], [] => true
+  | (p, x) :: r, (p', y) :: r' => Pos.eqb p p' && rci_same_held d p x y && pods_rci_same d r r'
+  | _, _ => false
+  end.
+(** the scheduler's view of the claims is the one of [was]: every claim's devices and ReservedFor set, and what
+    every consumer of a claim has recorded for it *)
+Definition claims_restored (now was : cdump) : bool :=
+  amap_eqb claimv_eqb (cd_claims now) (cd_claims was) && pods_rci_same was (cd_pods now) (cd_pods was).
+
+Definition pod_rci_same (p : positive) (a b : cdump) : bool :=
+  match alookup p (cd_pods a), alookup p (cd_pods b) with
+  | Some x, Some y => amap_eqb alloc_eqb_r x y
+  | None, None => true
+  | _, _ => false
+  end.
+
 (** A successful un-eviction of [p] (Unevict, or Pipeline onto the pod's own node and devices) that
     leaves [p] without a valid eviction is a rollback of that eviction:
       - [p] has the status, node, devices and virtual flag it had in the dump taken before the eviction;
       - when the steps still valid are those that were valid before the eviction, every pod, every
         job's books and every queue's usage are those of that dump;
-      - otherwise the job books and the queue usage move back by exactly what the eviction moved them.
+      - otherwise the job books and the queue usage move back by exactly what the eviction moved them;
+      - [p] records for its claims what it recorded in the dump taken before the eviction, and, when the steps
+        still valid are those that were valid then, the whole claims dump is the one taken then.
     [pd]: for every recorded operation, the real dumps before and after the command that recorded it. *)
-Definition unevict_clause (k : pcase) (hs : hstate) (pd : list (odump * odump)) (prev d : odump)
+Definition unevict_clause (k : pcase) (hs : hstate) (pd : list (odump * odump * cdump)) (prev d : odump) (dc : cdump)
            (p : positive) (popped : vitem) (V' : vset) : bool :=
   match popped with
   | VEv _ _ pos =>
       if existsb (is_ev_of p) V' then true else
       match nth_error pd pos, nth_error hs pos with
-      | Some (bef, aft), Some V0 =>
+      | Some (bef, aft, befc), Some V0 =>
           match pstatus d p, pstatus bef p with
           | Some a, Some b => pview_eqb a b
           | _, _ => false
           end
+          && pod_rci_same p dc befc
           && (if list_eqb xkey_eqb (map item_xkey V') (map item_xkey V0)
               then pods_same k false (od_pods d) (od_pods bef) && amap_eqb ojob_eqb (od_jobs d) (od_jobs bef)
-                   && amap_eqb req (od_queues d) (od_queues bef)
+                   && amap_eqb req (od_queues d) (od_queues bef) && claims_restored dc befc
               else jobs_balance (od_jobs d) (od_jobs aft) (od_jobs prev) (od_jobs bef)
                    && queues_balance (od_queues d) (od_queues aft) (od_queues prev) (od_queues bef))
       | _, _ => false
@@ -353,11 +417,12 @@ Definition assoc_nat {A} (n : nat) (l : list (nat * A)) : option A :=
 
 (** returns (ok, a restore held only modulo the whole-GPU columns of an exposed node) *)
 Fixpoint mon (k : pcase) (ncalls : nat) (start : odump) (cps : list (nat * odump)) (exp : list positive)
-         (hs : hstate) (pd : list (odump * odump)) (prev : odump) (ss : list ostep) : bool * bool :=
+         (hs : hstate) (pd : list (odump * odump * cdump)) (prev : odump) (prevc : cdump) (ss : list ostep) : bool * bool :=
   match ss with
   | [] => (true, false)
   | st :: r =>
       let d := resolve prev st in
+      let dc := match os_claims st with Some x => x | None => prevc end in
       let exp1 := exposed_nodes k d ++ exp in
       let nc := (ncalls + List.length (os_calls st))%nat in
       let '(here, quirk, start1, cps1, exp2) :=
@@ -380,7 +445,7 @@ Fixpoint mon (k : pcase) (ncalls : nat) (start : odump) (cps : list (nat * odump
       let pd1 := match os_cmd st with
                  | Rollback cp => if os_err st then pd else firstn cp pd
                  | Discard | Commit => []
-                 | _ => if grew then pd ++ [(prev, d)] else pd
+                 | _ => if grew then pd ++ [(prev, d, prevc)] else pd
                  end in
       let logc :=
         match os_cmd st with
@@ -388,18 +453,18 @@ Fixpoint mon (k : pcase) (ncalls : nat) (start : odump) (cps : list (nat * odump
         | Unevict p | Pipeline p _ _ _ =>
             if grew && Nat.ltb (List.length (hcur hs1)) (List.length (hcur hs)) then
               match pop_ev p (hcur hs) with
-              | Some (it, V') => unevict_clause k hs pd prev d p it V'
+              | Some (it, V') => unevict_clause k hs pd prev d dc p it V'
               | None => true
               end
             else true
         | _ => true
         end in
-      let '(ok, q) := mon k nc start1 cps1 exp2 hs1 pd1 d r in
+      let '(ok, q) := mon k nc start1 cps1 exp2 hs1 pd1 d dc r in
       (here && logc && ok, quirk || q)
   end.
 
 Definition prog_monitor (k : pcase) : bool * bool :=
-  if k_wf k then mon k 0 (k_dump0 k) [] (exposed_nodes k (k_dump0 k)) [[]] [] (k_dump0 k) (k_steps k) else (true, false).
+  if k_wf k then mon k 0 (k_dump0 k) [] (exposed_nodes k (k_dump0 k)) [[]] [] (k_dump0 k) (k_cdump0 k) (k_steps k) else (true, false).
 
 (** * Erasure: the run of the program against the run of the program without its abandoned parts
 
@@ -484,6 +549,151 @@ Definition erasure_check (k : pcase) : bool * bool :=
   end.
 Definition erasure_ok (k : pcase) : bool := fst (erasure_check k).
 
+
+(** * Resource claims
+
+    [cstep_obs]: a command with what the claim clauses read of its outcome - the error flag, the value a
+    Checkpoint returned, the claims dump after it - taken from the real run or from a run of the claim model. *)
+Definition cobs := (cmd * bool * nat * cdump)%type.
+
+(** the restore clauses over a run: (restored in the sense of [claims_restored] at every successful Rollback /
+    Discard, restored exactly - pods that hold nothing included) *)
+Fixpoint cmon (start : cdump) (cps : list (nat * cdump)) (prev : cdump) (ss : list cobs) : bool * bool :=
+  match ss with
+  | [] => (true, true)
+  | (c, err, ret, d) :: r =>
+      let '(here, exact, start1, cps1) :=
+        match c with
+        | Checkpoint => (cdump_eqb d prev, true, start, (ret, prev) :: cps)
+        | Rollback cp =>
+            if err then (true, true, start, cps) else
+            match assoc_nat cp cps with
+            | Some was => (claims_restored d was, cdump_eqb d was, start, filter (fun x => Nat.leb (fst x) cp) cps)
+            | None => (true, true, start, cps)
+            end
+        | Discard => (claims_restored d start, cdump_eqb d start, d, [])
+        | Commit => (true, true, d, [])
+        | _ => (true, true, start, cps)
+        end in
+      let '(ok, ex) := cmon start1 cps1 d r in
+      (here && ok, exact && ex)
+  end.
+
+Definition resolve_c (prev : cdump) (st : ostep) : cdump := match os_claims st with Some x => x | None => prev end.
+Fixpoint real_cobs (prev : cdump) (ss : list ostep) : list cobs :=
+  match ss with
+  | [] => []
+  | st :: r => let d := resolve_c prev st in (os_cmd st, os_err st, os_ret st, d) :: real_cobs d r
+  end.
+
+(** ** the claim model on the case *)
+Definition has_claims (k : pcase) : bool := match ci_pods (k_cinit k) with [] => false | _ => true end.
+Definition to_cpod (x : ipod) : cpod := mkCP (ip_claims x) (ip_stat x) (ip_node x) (ip_on x).
+Definition vstore0 (ci : cinit) : vstore := amapv ip_rci (ci_pods ci).
+Definition devs0 (ci : cinit) : list positive :=
+  fold_left (fun acc kv => match fst (snd kv) with Some ds => fold_left (fun a d => pins d a) ds acc | None => acc end) (ci_claims ci) [].
+Definition vinit (ci : cinit) : cst vstore rci := mkCS (vstore0 ci) (amapv to_cpod (ci_pods ci)) (ci_claims ci) (devs0 ci) [] [] 0%nat 0%nat false false.
+Definition hinit (ci : cinit) : cst heap positive := mkCS (h_init (vstore0 ci)) (amapv to_cpod (ci_pods ci)) (ci_claims ci) (devs0 ci) [] [] 0%nat 0%nat false false.
+
+(** the structured allocator on the generated worlds (one ExactCount request, every device selectable): the
+    lowest free devices of the pod's node; compared with the real allocator through [claims_agree] *)
+Definition first_free (ci : cinit) : oracle := fun _ used nd c =>
+  match nd with
+  | None => None
+  | Some n =>
+      let cnt := match alookup c (ci_counts ci) with Some x => Pos.to_nat x | None => 1%nat end in
+      let free := filter (fun d => negb (pmem d used)) (map fst (filter (fun dn => Pos.eqb (snd dn) n) (ci_devnode ci))) in
+      if Nat.leb cnt (List.length free) then Some (firstn cnt free) else None
+  end.
+
+Definition cd_of {ST SV} (SO : store_ops ST SV) (s : cst ST SV) : cdump := let v := cview SO s in mkCD (fst v) (snd v).
+
+(** run of a machine over a program: per command the error flag, the log length before it (what Checkpoint
+    returns) and the claims after it *)
+Fixpoint model_cobs {ST SV} (SO : store_ops ST SV) (clears : bool) (orc : oracle) (fails : nat -> bool)
+         (s : cst ST SV) (prog : list cmd) : list cobs * cst ST SV :=
+  match prog with
+  | [] => ([], s)
+  | c :: r =>
+      let '(s1, ok) := cstep_full SO clears orc fails s c in
+      let '(rest, sf) := model_cobs SO clears orc fails s1 r in
+      ((c, negb ok, List.length (c_log s), cd_of SO s1) :: rest, sf)
+  end.
+
+Fixpoint cobs_agree (m r : list cobs) : bool :=
+  match m, r with
+  | [], [] => true
+  | (c, e, ret, d) :: m', (c', e', ret', d') :: r' =>
+      Bool.eqb e (match c with Commit | Discard | Checkpoint => false | _ => e' end)
+      && (match c with Checkpoint => Nat.eqb ret ret' | _ => true end)
+      && cdump_eqb d d' && cobs_agree m' r'
+  | _, _ => false
+  end.
+
+(** the model of the code as it is ([code_restore_alias], [code_dealloc_clears] of Model/SessionClaims.v) against
+    the real run: claims dump after every command, error flags, checkpoint values; and, for the erased program,
+    the final claims of the second real session *)
+Definition claims_agree (k : pcase) : bool :=
+  if negb (has_claims k) then true else
+  let ci := k_cinit k in
+  let SO := HS false code_restore_alias in
+  cdump_eqb (cd_of SO (hinit ci)) (k_cdump0 k)
+  && (let '(m, sf) := model_cobs SO code_dealloc_clears (first_free ci) (fails_of k) (hinit ci) (prog_of k) in
+      cobs_agree m (real_cobs (k_cdump0 k) (k_steps k)) && negb (c_stuck sf))
+  && match k_erase k with
+     | None => true
+     | Some e =>
+         let '(_, sf) := model_cobs SO code_dealloc_clears (first_free ci) (fails_of k) (hinit ci) (er_cmds e) in
+         cdump_eqb (cd_of SO sf) (xf_claims (er_final_e e)) && negb (c_stuck sf)
+     end.
+
+(** the store of values is the heap store in which every save and every restore copies *)
+Definition stores_agree (k : pcase) : bool :=
+  if negb (has_claims k) then true else
+  let ci := k_cinit k in
+  let '(mv, _) := model_cobs VS code_dealloc_clears (first_free ci) (fails_of k) (vinit ci) (prog_of k) in
+  let '(mh, _) := model_cobs (HS false false) code_dealloc_clears (first_free ci) (fails_of k) (hinit ci) (prog_of k) in
+  cobs_agree mv mh.
+
+(** ** the property on the real claims dumps *)
+(** Bind hands the cluster the same claim allocations in both runs *)
+Definition xclaims_same (a b : list (list xcall)) : bool :=
+  list_eqb (list_eqb (fun x y => list_eqb Z.eqb (xc_claims x) (xc_claims y))) a b.
+Definition claims_erasure (k : pcase) : bool :=
+  match k_erase k with
+  | None => true
+  | Some e => claims_restored (xf_claims (er_final_p e)) (xf_claims (er_final_e e)) && xclaims_same (er_calls_p e) (er_calls_e e)
+  end.
+(** (the claims clauses hold, they hold exactly) *)
+Definition claims_monitor (k : pcase) : bool * bool :=
+  if negb (has_claims k) || negb (k_wf k) then (true, true) else
+  let '(ok, ex) := cmon (k_cdump0 k) [] (k_cdump0 k) (real_cobs (k_cdump0 k) (k_steps k)) in
+  (ok && claims_erasure k, ex).
+
+(** the allocate handler took an allocation from a stale record of the pod, in the run of the program or of the
+    erased program on the model of the code as it is *)
+Definition stale_record_used (k : pcase) : bool :=
+  let ci := k_cinit k in
+  let SO := HS false code_restore_alias in
+  c_stale (snd (model_cobs SO code_dealloc_clears (first_free ci) (fails_of k) (hinit ci) (prog_of k)))
+  || match k_erase k with
+     | None => false
+     | Some e => c_stale (snd (model_cobs SO code_dealloc_clears (first_free ci) (fails_of k) (hinit ci) (er_cmds e)))
+     end.
+(** A failure of the claims clauses on the real run is an instance of the listed finding C13-stale-claim-record
+    (flag 2) when the model of the code as it is reproduces the real run command by command (and the final claims of
+    the erased run), and on that run the allocate handler used a stale record: it took a claim's allocation from what
+    the pod had recorded although the claim has another allocation now, or, outside an un-eviction, although the
+    claim is unallocated now. *)
+Definition claims_explained (k : pcase) : option (list nat) :=
+  if negb (claims_agree k) then None
+  else if stale_record_used k then Some [2%nat]
+  else None.
+Definition claims_flags (k : pcase) : list nat :=
+  if fst (claims_monitor k) then [] else match claims_explained k with Some l => l | None => [] end.
+Definition claims_ok (k : pcase) : bool :=
+  fst (claims_monitor k) || match claims_explained k with Some _ => true | None => false end.
+
 (** * Real cycles: at most one call of each kind per pod
 
     C13's "evicted at most once" is a statement about ONE Commit.  The calls of a cycle come
@@ -518,14 +728,17 @@ Definition cycle_once (k : ccase) : bool :=
   && pipe_once_go [] (c_calls k).
 
 Definition model_agrees (c : case) : bool :=
-  match c with KProg k => prog_agrees k | KCycle k => cycle_agrees k end.
+  match c with KProg k => prog_agrees k && claims_agree k && stores_agree k | KCycle k => cycle_agrees k end.
 Definition monitor_ok (c : case) : bool :=
-  match c with KProg k => fst (prog_monitor k) && erasure_ok k | KCycle k => cycle_once k end.
+  match c with KProg k => fst (prog_monitor k) && erasure_ok k && claims_ok k | KCycle k => cycle_once k end.
 (** flag 1: known finding C14-device-guard manifested (a restore, or the two runs of the erasure clause, agree
     only modulo the whole-GPU columns of an exposed node) *)
 Definition flags (c : case) : list nat :=
   match c with
-  | KProg k => if snd (prog_monitor k) || snd (erasure_check k) then [1%nat] else []
+  | KProg k => (if snd (prog_monitor k) || snd (erasure_check k) then [1%nat] else []) ++ claims_flags k
+                (* flag 3: the queue usage the session reports drifted by float arithmetic (finding C13-queue-usage-float-drift) *)
+                ++ (if existsb (fun st => match os_qraw st with Some _ => true | None => false end) (k_steps k) then [3%nat] else [])
+                ++ (if snd (claims_monitor k) then [] else [120%nat])
   | KCycle k => cycle_flags k
   end.
 Definition run_mismatches (cs : list (nat * case)) : list nat := failing (fun k => negb (model_agrees k)) cs.
